@@ -1,7 +1,7 @@
 (* C13 - Patch validation enforces the documented key, service and URI constraints.
    Relative to the net/url oracle (Section variables uri_ok / url_norm). *)
 From Coq Require Import NArith Arith String List Bool.
-From Sidetree Require Import Json.Json Sidetree.Composer Sidetree.Validator.
+From Sidetree Require Import Json.Json Json.JcsProps Sidetree.Composer Sidetree.Validator Sidetree.ValidatorJequiv.
 Import ListNotations.
 
 (* ids: 1-50 characters of [A-Za-z0-9_-] *)
@@ -42,3 +42,10 @@ Example C13_nonvacuous :
             ("publicKeyJwk", JObj [("kty", JStr "EC"); ("crv", JStr "P-256"); ("x", JStr "x")]);
             ("purposes", JArr [JStr "keyAgreement"])]] = true.
 Proof. vm_compute. repeat split; reflexivity. Qed.
+
+(* the verdict is a property of the patch as a JSON value: two patches that differ only in member
+   order (at any depth; no object with a name twice) get the same verdict, for every action *)
+Theorem C13_verdict_ignores_member_order : forall uri_ok url_norm v v',
+  ndk v -> jequiv v v' -> validate_patch uri_ok url_norm v = validate_patch uri_ok url_norm v'.
+Proof. intros uri_ok url_norm v v' N E. exact (validate_patch_rel uri_ok url_norm v v' (conj N E)). Qed.
+Print Assumptions C13_verdict_ignores_member_order.
